@@ -24,6 +24,18 @@ def pair (h : String) : Option (Nat × Nat) :=
   | some [a, b] => some (a, b)
   | _ => none
 
+/-- `s xxxx` (and `p xxxx`: same call; the events the harness adds are stripped by checks/C09.py) -/
+def sepOp (st : St) (h : String) : St × String :=
+  match pair h with
+  | none => (st, "rej parse")
+  | some b =>
+    let (s', o) := Sep.step sepErrClearsCurr st.s b
+    let (tc, tk) := digest s'.slots
+    let p := match o.dec with
+      | some p => s!" dec {p.cls} {p.sub} {p.data.length} {toHex p.data}"
+      | none => ""
+    ({ st with s := s' }, s!"ok cur={optIdx s'.curr} xds={if s'.xds then 1 else 0} tc={tc} tk={tk}{errTag o.err}{p}")
+
 def step (st : St) (ws : List String) : St × String :=
   match ws with
   | ["extents"] =>
@@ -38,18 +50,11 @@ def step (st : St) (ws : List String) : St × String :=
         | some p => s!" pkt {p.cls} {p.sub} {p.data.length} {toHex p.data} z=1"
         | none => ""
       ({ st with d := d' }, s!"ok r={if o.r then 1 else 0} cur={optIdx d'.curr} tc={tc} tk={tk}{errTag o.err}{p}")
-  | ["s", h] =>
-    match pair h with
-    | none => (st, "rej parse")
-    | some b =>
-      let (s', o) := Sep.step sepErrClearsCurr st.s b
-      let (tc, tk) := digest s'.slots
-      let p := match o.dec with
-        | some p => s!" dec {p.cls} {p.sub} {p.data.length} {toHex p.data}"
-        | none => ""
-      ({ st with s := s' }, s!"ok cur={optIdx s'.curr} xds={if s'.xds then 1 else 0} tc={tc} tk={tk}{errTag o.err}{p}")
+  | ["p", h] => sepOp st h
+  | ["s", h] => sepOp st h
   | "d" :: _ => (st, "rej parse")
   | "s" :: _ => (st, "rej parse")
+  | "p" :: _ => (st, "rej parse")
   | "extents" :: _ => (st, "rej parse")
   | _ => (st, "rej op")
 
